@@ -262,6 +262,9 @@ def build_input(seed: int, opts: dict):
     return case, genome, anno, recs, rng
 
 
+MAX_FORMS = 17
+
+
 def cv_worker(job):
     """one generated single-gene input: real callVariant (+ requested variations) and the
     protocol lines for Spec.callVariant / Spec.witness"""
@@ -306,6 +309,12 @@ def cv_worker(job):
         if tx['sec']:
             out['stats']['selenoprotein'] = 1
         out['stats'][f'nvars_{min(len(tx["vars"]), 9)}'] = 1
+        if len(tx['vars']) > MAX_FORMS:
+            # Spec.haplotypes enumerates ALL sub-collections of the record pool before it filters
+            # the compatible ones (2^n): a splicing record with several nested records expands
+            # into 2^k forms; beyond MAX_FORMS the definition is not evaluated (counted, never judged)
+            out['stats']['skipped_too_many_forms'] = 1
+            return out
         if case.meta.get('context_snv'):
             out['stats']['planted_cleavage_context_snv'] = 1
         if any(isinstance(v[5], tuple) for v in tx['vars']):
